@@ -154,7 +154,7 @@ func genChanOps() (string, error) {
 				case *ast.CallExpr:
 					if se, ok := x.Fun.(*ast.SelectorExpr); ok {
 						switch se.Sel.Name {
-						case "Send", "Recv":
+						case "Send", "Recv", "TrySend", "TryRecv":
 							bare = append(bare, fn+":"+se.Sel.Name)
 						case "Select":
 							if id, ok := se.X.(*ast.Ident); ok && id.Name == "reflect" {
